@@ -259,6 +259,18 @@ def run(prog: Program) -> Results:
                     chain_name = d.targets[0].id
                 if norm(v) == want_outer:
                     outer_name = d.targets[0].id
+        # every continuation happens in the iteration that found the binder (an inherit clause of layer i shadows plain bindings of
+        # the layers outside it)
+        inside = {id(c) for c in ast.walk(loop) if isinstance(c, ast.Call)}
+        for c in walk_no_nested(fn):
+            if isinstance(c, ast.Call) and isinstance(c.func, ast.Name) and c.func.id in closures and c.func.id != "_inherit_matches":
+                r5.instances += 1
+                ok = id(c) in inside and not any(isinstance(a_, ast.Starred) for a_ in c.args)
+                r5.ob(ok, {"continuation_in_scan_iteration": norm(c)[:60]})
+                if not ok:
+                    res.add("R-C10-5", ("_resolve_identifier", "continuation outside the scan iteration", c.func.id), ri.loc(c),
+                            f"`{norm(c)[:60]}` runs after the scan over the scopes instead of in the iteration that found the binder: "
+                            f"a plain binding of an outer scope is preferred to an `inherit` clause of an inner one (innermost no longer wins)")
         # call sites pass the cut chains
         for c in ast.walk(loop):
             if isinstance(c, ast.Call) and isinstance(c.func, ast.Name) and c.func.id in closures and c.func.id != "_inherit_matches":
@@ -456,5 +468,38 @@ def run(prog: Program) -> Results:
     if not ok:
         res.add("R-C10-5", ("AttributeSet.__getitem__", "inherit chain"), gi.loc(ctx[0] if ctx else None),
                 "the chain attached to an inherited name does not end with the set's own scope (innermost last)")
+    # ---------------------------------------------------------------- R-C10-6 a stored value does not bring a foreign chain along
+    r6 = res.rule("R-C10-6", "an expression stored into a document by item assignment loses the scope chain it carried: in every "
+                  "mapping __setitem__ that stores `value` into a binding (overwrite or append), clear_resolution_context(value) "
+                  "has run on every path to the store — a chain from another document must never answer a later lookup", floor=2)
+    for key in ("AttributeSet.__setitem__", "Scope.__setitem__"):
+        if not prog.has_func(key):
+            res.unclass(f"{key} vanished")
+            continue
+        g = prog.func(key)
+        res.analysed_functions.add(key)
+        gcfg = CFG(g.node)
+        vparam = g.params()[-1]
+        clears = [n for n in gcfg.nodes if n.ast is not None and n.kind in ("stmt",) and any(
+            isinstance(c, ast.Call) and callee(c) == "clear_resolution_context" and c.args and norm(c.args[0]) == vparam for c in ast.walk(n.ast))]
+        not_expr = edges_establishing(gcfg, lambda a, t, _v=vparam: isinstance(a, ast.Call) and callee(a) == "isinstance" and norm(a.args[0]) == _v
+                                      and "NixExpression" in norm(a.args[1]) and t is False)
+        stores = []
+        for n in gcfg.nodes:
+            a = n.ast
+            if isinstance(a, ast.Assign) and norm(a.value) == vparam and isinstance(a.targets[0], ast.Attribute) and a.targets[0].attr == "value":
+                stores.append(n)
+            elif isinstance(a, ast.Assign) and isinstance(a.value, ast.Call) and callee(a.value) == "Binding" and any(
+                    k.arg == "value" and norm(k.value) == vparam for k in a.value.keywords):
+                stores.append(n)
+        for n in stores:
+            r6.instances += 1
+            ok = bool(clears) and gcfg.all_paths_pass(n, cut_nodes=clears, cut_edges=not_expr)
+            r6.ob(ok, {"site": key, "store": norm(n.ast)[:60]})
+            if not ok:
+                res.add("R-C10-6", (key, "value stored with its old scope chain", norm(n.ast.targets[0])[:40]), g.loc(n.ast),
+                        f"{key}: `{norm(n.ast)[:70]}` is reachable without clear_resolution_context({vparam}): an expression taken from "
+                        f"another document keeps that document's chain, and `.value` on it answers from the unrelated document "
+                        f"instead of raising ResolutionError")
     res.assumptions = ["_CONTEXTS is an unlocked dict relying on the GIL", "precedence among let/rec/formals at equal depth is runtime structure"]
     return res
